@@ -423,7 +423,7 @@ func (m *model) checkTx(pre *nmView, t txInfo, res polyenv.Result, post *nmView,
 		r.Class("register_accepted")
 		for _, k := range t.keys {
 			if preBlack[canonOfString(k)] {
-				viol("black:blacklisted-key-registered"+altTag(k), map[string]any{"key": m.nameKeys([]string{k})})
+				viol("black:blacklisted-key-registered"+altTag(append(append(pre.blackRecordsOf(canonOfString(k)), pre.entriesOf(canonOfString(k))...), k)...), map[string]any{"key": m.nameKeys([]string{k})})
 			}
 		}
 	}
@@ -437,7 +437,7 @@ func (m *model) checkTx(pre *nmView, t txInfo, res polyenv.Result, post *nmView,
 	postBlack := post.blackCanon()
 	for _, e := range post.Pool {
 		if !preKeys[e.Key] && preBlack[e.Canon] && postBlack[e.Canon] {
-			viol("black:blacklisted-key-enters-pool"+altTag(e.Key), map[string]any{"key": m.nameKeys([]string{e.Key})})
+			viol("black:blacklisted-key-enters-pool"+altTag(append(append(pre.blackRecordsOf(e.Canon), pre.entriesOf(e.Canon)...), e.Key)...), map[string]any{"key": m.nameKeys([]string{e.Key})})
 		}
 	}
 
@@ -649,8 +649,8 @@ var mbcv uint32
 var traceViolations int
 
 func main() {
-	debug.SetMemoryLimit(6 << 30)
-	debug.SetGCPercent(800) // allocation-heavy (fresh MemDB skip lists per transaction inside the code under test); memory stays small
+	debug.SetMemoryLimit(5 << 30)
+	debug.SetGCPercent(300) // allocation-heavy (fresh MemDB skip lists per transaction inside the code under test); memory stays small
 	r := ev.Start("C34", "model_checking")
 	if pf := os.Getenv("C34_PROF"); pf != "" {
 		f, _ := os.Create(pf)
